@@ -54,6 +54,36 @@ def observe(lines, key):
     r["del_event"] = f"0:PD:[{kx}={js(2)}]" in ev(lines[5])
     return r
 
+UNIVERSE = [k for k in seqs(["a", "b"], 3)]          # a, b, a/a, ..., b/b/b: values at inner nodes AND below them
+
+def population_ops(pat):
+    p = "/".join(pat)
+    return [O.set(1, "/".join(k), 1) for k in UNIVERSE] + [O.psub(2, 1, "#", False, True), O.pget(p), O.pdelete(1, p), O.pget("#")]
+
+def population_oracle(pat, lines):
+    """in a store that holds a value at every node of a small tree: pdelete removes exactly the keys pget returned, reports exactly
+    those, the `#` subscriber sees exactly those deletions, and everything else is still there"""
+    n = len(UNIVERSE)
+    if len(lines) < n + 4: return "implementation stopped answering"
+    res = lambda l: l.split(" | ")[0]
+    ev = lambda l: l.split(" | ")[1]
+    def keyset(r):
+        if not r.startswith("kvs"): return None
+        return {tuple(decode_tok(tok.split("=")[0]).strip("'").split("/")) for tok in r[4:].strip("[]").split(";") if "=" in tok}
+    got, deleted, remaining = keyset(res(lines[n + 1])), keyset(res(lines[n + 2])), keyset(res(lines[n + 3]))
+    if not wf(pat):
+        return None          # ill-formed patterns: F3, judged by the single-key cases
+    want = {tuple(k) for k in UNIVERSE if doc_match(pat, k) or zero_multi(pat, k)}
+    if got is None or deleted is None or remaining is None:
+        return f"a request was refused: pget `{res(lines[n + 1])}`, pdelete `{res(lines[n + 2])}`, pget # `{res(lines[n + 3])}`"
+    if got != want: return f"pget returned {sorted(got)}, the documented relation gives {sorted(want)}"
+    if deleted != got: return f"pdelete reported {sorted(deleted)}, pget had returned {sorted(got)}"
+    rest = {tuple(k) for k in UNIVERSE} - want
+    if remaining != rest: return f"after the pdelete the store holds {sorted(remaining)}, expected {sorted(rest)}: keys were removed that the pattern does not match, or matched keys were kept"
+    evs = {tuple(decode_tok(tok.split(":PD:[")[1].split("=")[0]).strip("'").split("/")) for tok in ev(lines[n + 2]).split(" ") if ":PD:[" in tok}
+    if evs != want: return f"deletion events for {sorted(evs)}, removed {sorted(want)}"
+    return None
+
 def run(v, tier, seed):
     depth = 3 if tier == "quick" else 4
     kdepth = depth
@@ -68,11 +98,13 @@ def run(v, tier, seed):
     work = os.path.join(WORK, ID)
     os.makedirs(work, exist_ok=True)
     pairs = [(p, k) for p in pats for k in keys] + extra
-    cases = [(f"{i}", case_ops(p, k)) for i, (p, k) in enumerate(pairs)]
+    pop_pats = list(seqs(["a", "b", "?", "#"], 3 if tier == "quick" else 4))
+    cases = [(f"{i}", case_ops(p, k)) for i, (p, k) in enumerate(pairs)] + [(f"pop{i}", population_ops(p)) for i, p in enumerate(pop_pats)]
     cpath = os.path.join(work, "cases.txt")
     write_cases(cpath, cases)
     impl, model = run_engine("core", "core_driver", cpath, work)
-    ncases, nsteps, diffs, A, B = compare_obs(impl, model)
+    from coreops import canon_line     # events of one pattern delete leave in the hash order of the children
+    ncases, nsteps, diffs, A, B = compare_obs(impl, model, project=canon_line)
     diff_cases = {d[0]: d for d in diffs}
     stats = {"wf": 0, "non_wf": 0, "match": 0, "nomatch": 0, "F2": 0, "F3": 0, "unstorable_key": 0}
     samples = []
@@ -122,14 +154,23 @@ def run(v, tier, seed):
             pass
         if len(samples) < 3 and d and wf(p) and len(p) > 1:
             samples.append({"pattern": "/".join(p), "key": "/".join(k), "observed": ob})
+    npop = 0
+    for i, p in enumerate(pop_pats):
+        bad = population_oracle(p, A.get(f"pop{i}", []))
+        npop += 1
+        if bad:
+            v.violation({"what": bad, "pattern": "/".join(p), "ops": population_ops(p), "ops_readable": [decode_tok(o) for o in population_ops(p)],
+                         "observed_lines": [decode_tok(l) for l in A.get(f"pop{i}", [])[len(UNIVERSE):]]})
+            if len(v.violations) >= 5: break
+    stats["population_cases"] = npop
     # correspondence: any disagreement not already explained by a property failure
     if diffs and not v.violations:
         name, step, x, y = diffs[0]
-        p, k = pairs[int(name)]
+        p, k = pairs[int(name)] if not name.startswith("pop") else (pop_pats[int(name[3:])], [])
         v.violation({"what": "model and implementation disagree; the documented relation still holds on every pair explored",
-                     "pattern": "/".join(p), "key": "/".join(k), "ops": case_ops(p, k), "step": step,
+                     "pattern": "/".join(p), "key": "/".join(k), "ops": case_ops(p, k) if k else population_ops(p), "step": step,
                      "impl": decode_tok(x), "model": decode_tok(y), "disagreeing_cases": len(diffs),
                      "broken_obligation": "correspondence core/C04 (Model/Store.v collect, delm; Model/Subs.v add_matches)"}, no_input=True)
     v.cov.update({"evaluations": ncases, "distinct_nontrivial": len(nontrivial),
-                  "rule": f"every pattern over {{a,b,'',?,#}} and every key over {{a,b,''}} up to depth {depth} (exhaustive){' plus 20000 random depth-5 pairs' if extra else ''}; per pair: set, psubscribe (live-only and not), pget, set, pdelete, get on the real core and on the model; non-trivial = the documented relation holds for the pair, or the pair is in a known class",
+                  "rule": f"every pattern over {{a,b,'',?,#}} and every key over {{a,b,''}} up to depth {depth} (exhaustive){' plus 20000 random depth-5 pairs' if extra else ''}; per pair: set, psubscribe (live-only and not), pget, set, pdelete, get on the real core and on the model; plus, for every pattern over {{a,b,?,#}} up to that depth, a store with a value at EVERY node of the {{a,b}} tree of depth 3 (pget, pdelete, remaining keys, deletion events as sets); non-trivial = the documented relation holds for the pair, or the pair is in a known class",
                   "samples": samples, "exhaustive": True, "steps": nsteps, "disagreements": len(diffs), "classes": stats})
